@@ -382,6 +382,78 @@ fn check_storage(case: &SCase, st: &mut Stats) -> CheckResult {
 }
 
 // ---------------------------------------------------------------------------------------------
+// Part C: the largest payloads the API lets through (100 MiB), storage level
+
+#[derive(Clone, Debug, Serialize, Deserialize, PartialEq, Eq, Hash)]
+pub struct ExtCase {
+    pub snapshot: bool,
+    /// payload length = 100 MiB + delta (delta <= 0)
+    pub delta: i32,
+    pub class: u8,
+}
+
+fn check_extreme(ec: &ExtCase, st: &mut Stats) -> CheckResult {
+    let len = (100i64 * 1024 * 1024 + ec.delta as i64) as u32;
+    let body = BytesSpec { len, class: ec.class, seed: 3 }.expand();
+    let want = format!("{}B:{:016x}", body.len(), hash_bytes(&body));
+    let run = |storage: Arc<dyn Storage>| -> Vec<String> {
+        let c = case::client_uuid(13, 0);
+        let v1 = fresh_uuid(1);
+        let v2 = fresh_uuid(2);
+        let mut out = vec![];
+        let setup = (|| -> anyhow::Result<()> {
+            let mut t = storage.txn(c)?;
+            t.new_client(Uuid::nil())?;
+            t.add_version(v1, Uuid::nil(), vec![1])?;
+            t.commit()
+        })();
+        out.push(format!("setup:{}", setup.is_ok()));
+        let w = (|| -> anyhow::Result<()> {
+            let mut t = storage.txn(c)?;
+            if ec.snapshot {
+                t.set_snapshot(Snapshot { version_id: v1, timestamp: chrono::Utc::now(), versions_since: 0 }, body.clone())?;
+            } else {
+                t.add_version(v2, v1, body.clone())?;
+            }
+            t.commit()
+        })();
+        out.push(format!("write:{}", match &w { Ok(()) => "ok".to_string(), Err(e) => format!("ERR {e:#}") }));
+        let r = (|| -> anyhow::Result<String> {
+            let mut t = storage.txn(c)?;
+            Ok(if ec.snapshot {
+                match t.get_snapshot_data(v1)? {
+                    None => "none".into(),
+                    Some(d) => format!("{}B:{:016x}", d.len(), hash_bytes(&d)),
+                }
+            } else {
+                match t.get_version_by_parent(v1)? {
+                    None => "none".into(),
+                    Some(v) => format!("{}B:{:016x}", v.history_segment.len(), hash_bytes(&v.history_segment)),
+                }
+            })
+        })();
+        out.push(format!("read:{}", r.unwrap_or_else(|e| format!("ERR {e:#}"))));
+        out
+    };
+    let mem = mem_factory()().map_err(|e| Fail::Violation(format!("{e:#}")))?.served;
+    let a = run(mem);
+    let d = TempDir::new("c13x");
+    let sq = sqlite_factory(d.path().to_path_buf())().map_err(|e| Fail::Violation(format!("{e:#}")))?.served;
+    let b = run(sq);
+    st.check();
+    let what = format!("{} of 100 MiB{:+} bytes at storage level", if ec.snapshot { "snapshot" } else { "version" }, ec.delta);
+    if a != b {
+        return Err(Fail::Violation(format!("{what}: memory backend -> {a:?}; SQLite backend -> {b:?}")));
+    }
+    if a[2] != format!("read:{want}") {
+        return Err(Fail::Violation(format!("{what}: both backends agree on {a:?}, but the payload does not read back ({want})")));
+    }
+    st.nontrivial(ec);
+    st.label("c13x:limit-sized-payload");
+    Ok(())
+}
+
+// ---------------------------------------------------------------------------------------------
 
 pub fn run(tier: Tier, seed: u64) -> Report {
     let mut rep = Report::new(
@@ -413,6 +485,21 @@ pub fn run(tier: Tier, seed: u64) -> Report {
     let max = tier.pick(30, 80);
     let r = engine::explore("C13", "storage", seed, total, || scase(max), check_storage);
     rep.absorb("storage-contract-lockstep", r);
+    if rep.failed() {
+        return rep;
+    }
+    let mut cases = vec![];
+    for snapshot in [false, true] {
+        for delta in [0i32, -1, -200] {
+            if tier == Tier::Quick && delta == -200 {
+                continue;
+            }
+            cases.push(ExtCase { snapshot, delta, class: if snapshot { 5 } else { 2 } });
+        }
+    }
+    let mut r = engine::enumerate_n("C13", "extreme", 4, cases, check_extreme);
+    r.exhaustive = false;
+    rep.absorb("largest-payloads-both-backends", r);
     rep
 }
 
@@ -425,6 +512,10 @@ pub fn replay(kind: &str, case_json: &Value, st: &mut Stats) -> CheckResult {
         "storage" => {
             let c: SCase = serde_json::from_value(case_json.clone()).map_err(|e| Fail::Inconclusive(format!("bad replay file: {e}")))?;
             check_storage(&c, st)
+        }
+        "extreme" => {
+            let c: ExtCase = serde_json::from_value(case_json.clone()).map_err(|e| Fail::Inconclusive(format!("bad replay file: {e}")))?;
+            check_extreme(&c, st)
         }
         _ => Err(Fail::Inconclusive(format!("unknown replay kind {kind}"))),
     }
